@@ -168,7 +168,19 @@ def base_C():
             'power': {'asm': {'1': pw}}}
 
 
-BASES = {'A': base_A, 'B': base_B, 'C': base_C}
+def base_D():
+    """base B with the two flat-to-flat values of every duct listed outer value first (the order
+    inside a pair is free: the regions sort the list).  Only the faults of the duct / pitch keys
+    are enumerated on this base (ONLY_KEYS)."""
+    scn = base_B()
+    for d in scn['types'].values():
+        f = list(d['duct_ftf'])
+        d['duct_ftf'] = [f[i + 1 - 2 * (i % 2)] for i in range(len(f))]
+    return scn
+
+
+BASES = {'A': base_A, 'B': base_B, 'C': base_C, 'D': base_D}
+ONLY_KEYS = {'D': ('Assembly/*/duct_ftf', 'Core/assembly_pitch')}
 _BASE_CACHE = {}
 
 
@@ -860,6 +872,8 @@ def cases(tier):
         out.append({'base': base, 'key': '-', 'tkey': '-', 'fault': 'none',
                     'ffam': 'none', 'kf': '-'})
         for key, tkey, fault in single_faults(base, tier):
+            if base in ONLY_KEYS and tkey not in ONLY_KEYS[base]:
+                continue
             m = mutate(base, [(key, fault)])
             if m is None:
                 continue
